@@ -76,16 +76,19 @@ def seekChan (c : Chan) (arr : Arr) (data : Bytes) : Except Err (Arr × Bytes) :
   | none => .error .repCode
   | some w => .ok (arr, data.drop (w * c.count))
 
+/-- `c == 0 or channel.ident in channels` (every channel when no channel set is given) -/
+def wanted (sel : Option (List Bytes)) (k : Nat) (c : Chan) : Bool :=
+  match sel with
+  | none => true
+  | some ids => k = 0 || ids.contains c.ident
+
 /-- `RP66V1FrameArray.read` (`sel = none`) / `read_partial` (`sel = some idents`): channel `0` is always read.
 `k` is the channel index. -/
 def readFrameInto (sel : Option (List Bytes)) (ai : Nat) : Nat → List Chan → List Arr → Bytes → Except Err (List Arr)
   | _, [], _, _ => .ok []
   | _, _ :: _, [], _ => .error .index
   | k, c :: cs, arr :: arrs, data =>
-    let wanted := match sel with
-      | none => true
-      | some ids => k = 0 || ids.contains c.ident
-    match (if wanted then readChan c ai arr data else seekChan c arr data) with
+    match (if wanted sel k c then readChan c ai arr data else seekChan c arr data) with
     | .error e => .error e
     | .ok (arr', r) => match readFrameInto sel ai (k + 1) cs arrs r with
       | .error e => .error e
@@ -99,12 +102,9 @@ def initArrays (sel : Option (List Bytes)) (n : Nat) : Nat → List Chan → Lis
   | _, [], _ => .ok []
   | _, _ :: _, [] => .error .index
   | k, c :: cs, arr :: arrs =>
-    let wanted := match sel with
-      | none => true
-      | some ids => k = 0 || ids.contains c.ident
     match initArrays sel n (k + 1) cs arrs with
     | .error e => .error e
-    | .ok arrs' => .ok (initArray arr (if wanted then n else 0) :: arrs')
+    | .ok arrs' => .ok (initArray arr (if wanted sel k c then n else 0) :: arrs')
 
 /-- one entry of `iflr_position_map[name]`: position, frame number, X (the values of the first channel) -/
 structure IflrRef where
